@@ -24,6 +24,7 @@ EXPLANATION = (
     "discipline for all histories; does not decide what user code does to fields directly.")
 EXPLANATION += (' Registry guard: the store systems[s.id] = s is dominated by `s.id not in systems`; presence of a system is never decided by the truth value of the system object (R-NONE); iterating the registry instead of the queue is a violation; a search helper that returns the first hit followed by insert at that index is the scan idiom.')
 EXPLANATION += (' System.__init__ stores `id` verbatim and reaches no write of the registry or queue; addSystem / removeSystem forward every argument to one method of the receiver.')
+EXPLANATION += (' add_system / remove_system raise their documented error only on a path that established `id in systems` / `id not in systems`.')
 ASSUMPTIONS = [
     "G6: user code reaches framework state only through public methods; priorities are not changed after registration",
     "list.insert/append/remove semantics and list iteration order (language facts)",
@@ -375,6 +376,18 @@ def run(cx: Cx):
     # ------------------------------------------------------------ clause 4: R-ATOMIC
     check_atomic(cx, add.qualname, ['KeyError'])
     check_atomic(cx, rem.qualname, ['SystemNotFoundError'])
+    # the documented refusals are refusals of THAT case only: "not registered" is `s_id not in systems`, not a falsy id (a system
+    # numbered 0 is registered like any other), and "already registered" is `s.id in systems`
+    from .common import _rejects_only
+    from sa.terms import AIn as _AIn0
+    r_self, r_id = Sym(rem.params[0]), Sym(rem.params[1])
+    a_self, a_s = Sym(add.params[0]), Sym(add.params[1])
+    for p_ in cx.walker.paths(rem, WalkOptions(unroll=1)):
+        if p_.end == 'raise':
+            _rejects_only(cx, rem, p_, 'SystemNotFoundError', f_not(_AIn0(r_id, Attr(r_self, 'systems'))), 'the id is not registered', 'R-DISC')
+    for p_ in cx.walker.paths(add, WalkOptions(unroll=1)):
+        if p_.end == 'raise':
+            _rejects_only(cx, add, p_, 'KeyError', _AIn0(Attr(a_s, 'id'), Attr(a_self, 'systems')), 'the id is taken', 'R-DISC')
 
     # ------------------------------------------------------------ clause 6: collectors forward their schedule
     sysinit = CORE + 'System.__init__'
